@@ -749,7 +749,7 @@ MANIFEST = dict(
          "exponents out of 7 (merged denominators up to 28); every valid spelling cancelling against another spelling of "
          "its dimension next to %, ppth, [pi], [N_0]. Every accepted string is observed through BaseUnits and through "
          "Quantity(1, text). Every must-reject string is parsed 4 times in one process "
-         "and must be rejected each time. Factor (rel 1e-12), exact rational dimension "
+         "and must be rejected each time, and a plain valid string parsed through the same entry point right after the first and third rejection must read as the tables say. Factor (rel 1e-12), exact rational dimension "
          "vector, accept/reject verdict, meaning of the rendered text and the parse-render-parse round trip are "
          "compared with a Fraction model built from the published tables.",
     note="Bounded: exponents from 16 spellings, <= 4 leaves, nesting <= 2, 10 foreign items, 4 numeric factors; longer "
